@@ -22,6 +22,22 @@ What differs from the repository's helpers (and why):
 Classes defined here are persisted by StreamFlow under their qualified name and re-instantiated by
 ``WorkflowBuilder`` when a recovery workflow is built; the injection state therefore lives in the module
 global ``_RUN`` (one scenario at a time per process).
+
+Determinism (checked: identical execution logs for 80 random scenarios in different processes, with and
+without PYTHONHASHSEED): nothing in these scenarios uses a thread or a subprocess -- every
+``LocalStreamFlowPath`` operation is a synchronous ``os``/``pathlib`` call (only ``checksum()`` of files
+> 2 KiB uses ``to_thread``; the kit never calls it), local-to-local transfers are ``shutil`` copies in the
+loop thread, ``LocalConnector.run`` (a subprocess) is never called because the kit's commands do their
+work with ``os`` calls, the database is the synchronous sqlite adapter. Three remaining sources of
+arbitrariness are pinned for the duration of a scenario: ``uuid.uuid4`` (port / directory names),
+``asyncio.wait`` (StreamFlow iterates over the *sets* it returns, i.e. in memory-address order; the
+wrapper returns insertion-ordered sets, permuted by the case's ``wait_order``) and the scratch directory
+is the only run-dependent string (no behaviour was seen to depend on it).
+
+Fail-stop follows tests/utils/workflow.py::_delete_job_workdir: the *whole* working directory of the
+job's deployment is removed, i.e. the data of every job on that deployment (also of jobs still running,
+which then fail "collaterally" with the repository's own error paths). Shapes may spread their steps
+over up to three volatile local deployments so that some data survives a fail-stop.
 """
 from __future__ import annotations
 
@@ -431,6 +447,26 @@ class KitScheduleStep(ScheduleStep):
 
 
 class KitTransferStep(TransferStep):
+    """``inject``: only the transfer step of a job's *first* input port is a failure-injection point, so
+    that one attempt of a job consumes at most one planned transfer failure (a step with several inputs
+    has one transfer step per input, running concurrently)."""
+
+    def __init__(self, name: str, workflow, job_port, inject: bool = True):
+        super().__init__(name, workflow, job_port)
+        self.inject = inject
+
+    async def _save_additional_params(self, database):
+        return cast(dict, await super()._save_additional_params(database)) | {"inject": self.inject}
+
+    @classmethod
+    async def _load(cls, row, loading_context):
+        return cls(
+            name=row["name"],
+            workflow=await loading_context.load_workflow(row["workflow"]),
+            job_port=cast(JobPort, await loading_context.load_port(row["params"]["job_port"])),
+            inject=row["params"]["inject"],
+        )
+
     async def _transfer_path(self, job: Job, path: str) -> str:
         context = self.workflow.context
         dst_connector = context.scheduler.get_connector(job.name)
@@ -471,7 +507,7 @@ class KitTransferStep(TransferStep):
     async def transfer(self, job: Job, token: Token) -> Token:
         _run().ev("xfer", job.name, wf=self.workflow.persistent_id)
         await _pause()
-        if _inject(self.workflow.context, job, "transfer"):
+        if self.inject and _inject(self.workflow.context, job, "transfer"):
             raise WorkflowExecutionException(f"Injected error into {self.name} step")
         return await self._move(job, token)
 
@@ -585,10 +621,10 @@ class Builder:
         sched = self._schedule_step(KitScheduleStep, dep, step_name)
         ex = self.wf.create_step(ExecuteStep, name=step_name, job_port=sched.get_output_port())
         ex.command = KitCommand(ex, dict(spec, ports=list(inputs)))
-        for key, port in inputs.items():
+        for n, (key, port) in enumerate(inputs.items()):
             sched.add_input_port(key, port)
             tr = self.wf.create_step(
-                cls=KitTransferStep, name=posixpath.join(step_name, "__transfer__", key), job_port=sched.get_output_port()
+                cls=KitTransferStep, name=posixpath.join(step_name, "__transfer__", key), job_port=sched.get_output_port(), inject=n == 0
             )
             tr.add_input_port(key, port)
             tport = self.port(hint=f"xfer{step_name}-{key}")
@@ -1208,6 +1244,17 @@ def starved_ports(res: Result) -> list[str]:
     return sorted(out)
 
 
+def _normalise(msg: str) -> str:
+    """error message -> stable bucket (no paths, ids, job names, counters)"""
+    import re
+
+    msg = msg.split("\n")[0]
+    msg = re.sub(r"/[\w./#-]+", "<path>", msg)
+    msg = re.sub(r"0x[0-9a-f]+", "<addr>", msg)
+    msg = re.sub(r"\d+", "<n>", msg)
+    return msg[:90]
+
+
 def _wrap_recover(ctx, run: Run) -> None:
     """log every FailureManager.recover call (entry with the availability snapshot, exit with the outcome)"""
     fm = ctx.failure_manager
@@ -1223,14 +1270,16 @@ def _wrap_recover(ctx, run: Run) -> None:
                open=sorted(r["job"] for k, r in run.open_recoveries.items() if k != rid),
                missing=sorted(rec["missing_at_enter"]))
         outcome = "ok"
+        why = ""
         try:
             return await orig(job, step, exception)
         except BaseException as e:
             outcome = type(e).__name__
+            why = _normalise(str(e))
             raise
         finally:
             run.open_recoveries.pop(rid, None)
-            run.ev("recover-exit", job.name, rid=rid, outcome=outcome, unavailable=sorted(rec["missing_at_enter"] | rec["lost_during"]))
+            run.ev("recover-exit", job.name, rid=rid, outcome=outcome, why=why, unavailable=sorted(rec["missing_at_enter"] | rec["lost_during"]))
 
     fm.recover = recover
 
@@ -1286,6 +1335,24 @@ class View:
                 if other != e["job"]:
                     out.append((e, other))
         return out
+
+    def raised_kind(self) -> str:
+        """why the workflow failed: retries exhausted (the failure manager refused a recovery because a
+        job reached max_retries) or an error inside the recovery machinery"""
+        refused = [e for e in self.exits.values() if e["outcome"] != "ok" and e["outcome"] != "CancelledError"]
+        refused.sort(key=lambda e: e["seq"])
+        limit = self.res.max_retries
+        exhausted = limit is not None and any(v >= limit for v in self.res.versions.values())
+        first = refused[0] if refused else None
+        if first is not None and first["why"].startswith("FAILED Job") and "Execution aborted" in first["why"]:
+            return "raised:retries-exhausted" if exhausted else "raised:refused-below-limit"
+        if first is not None and first["outcome"] == "RecursionError":
+            # recover() -> _do_handle_failure (itself @recoverable) -> _recover raises a non-recovery
+            # error -> recover() ... without bound
+            return "raised:RecursionError"
+        if first is not None:
+            return f"raised:{first['outcome']}:{first['why']}"
+        return "raised:no-refused-recovery"
 
     def rerun_without_own_failure(self) -> list[str]:
         return sorted(j for j, n in self.starts.items() if n > 1 + self.own_exec.get(j, 0))
